@@ -39,6 +39,8 @@ META = {
         'Exhaustive over umasks; scenarios are a fixed list.'),
     'level_note': 'exhaustive: true for the umask dimension',
     'design_ref': 'DESIGN.md §5 C44',
+    # fork-heavy: forked children do not scale with cores here (§2.4)
+    'shards': 6,
     'budget': {'quick': 240, 'thorough': 1200},
     'exhaustive': True,
 }
@@ -73,7 +75,7 @@ MIN = {
     'server_key_modes_judged': 180, 'client_key_modes_judged': 180,
     'umask_permissive_cases': 120, 'restart_cases': 60,
 }
-CASE_TIMEOUT = 90
+CASE_TIMEOUT = 400
 
 UMASKS = [u for u in range(0o100)]          # owner bits clear: 0o000..0o077
 SCEN_QUICK = ['fresh', 'restart', 'stale_wide_keys', 'restart_wide_db',
@@ -428,7 +430,7 @@ def run_case(ctx, i, rng):
     wid = f'w{i}x{rng.randrange(16 ** 4):04x}'
     spec = {'umask': u, 'scenario': scen, 'first_umask': first_umask,
             'workflow': wid}
-    rep = _fork_run(spec, 75)
+    rep = _fork_run(spec, 300)
     if 'error' in rep:
         raise RuntimeError(
             f'scheduler child failed for umask {u:03o} scenario {scen}: '
